@@ -276,4 +276,3 @@ func Load(o LoadOpts) (*Prog, error) {
 	}
 	return p, nil
 }
-
